@@ -87,11 +87,12 @@ class Interstitial(object):
             self.omega_invertible = any(np.allclose(g.cartrot, -np.eye(self.dim)) for g in crys.G)
         if self.omega_invertible:
             # invertible, so just use solve for speed (omega is technically *negative* definite)
-            self.bias_solver = lambda omega, b: -solve(-omega, b, assume_a='pos')
+            self.bias_solver = lambda omega, b, scale=0.: -solve(-omega, b, assume_a='pos')
         else:
             # pseudoinverse required; the null space (uniform translations) comes out of the projection with roundoff of a
-            # few machine epsilon relative to the largest rate, which can land above the default cutoff and be inverted
-            self.bias_solver = lambda omega, b: np.dot(pinv(omega, rtol=1e-12), b)
+            # few machine epsilon relative to the rates, which can land above the default cutoff and be inverted. The
+            # projected matrix can be null altogether, so the cutoff is also set against the rate scale handed in
+            self.bias_solver = lambda omega, b, scale=0.: np.dot(pinv(omega, atol=1e-12 * scale, rtol=1e-12), b)
         # these pieces are needed in order to compute the elastodiffusion tensor
         self.sitegroupops = self.generateSiteGroupOps()  # list of group ops to take first rep. into whole list
         self.jumpgroupops = self.generateJumpGroupOps()  # list of group ops to take first rep. into whole list
@@ -425,7 +426,7 @@ class Interstitial(object):
                 for b, vb in enumerate(self.VectorBasis):
                     omega_v[a, b] = np.trace(np.dot(va.T, np.dot(omega_ij, vb)))
                     domega_v[a, b] = np.trace(np.dot(va.T, np.dot(domega_ij, vb)))
-            gamma_v = self.bias_solver(omega_v, bias_v)
+            gamma_v = self.bias_solver(omega_v, bias_v, -np.trace(omega_ij))  # rate scale: total escape rate
             dgamma_v = np.dot(domega_v, gamma_v)
             Dcorrection = np.dot(np.dot(self.VV, bias_v), gamma_v)
             Db += np.dot(np.dot(self.VV, dbias_v), gamma_v) \
@@ -515,7 +516,7 @@ class Interstitial(object):
                 bias_v[a] = np.tensordot(bias_i, va, ((0, 1), (0, 1)))  # can also use trace(dot(bias_i.T, va))
                 for b, vb in enumerate(self.VectorBasis):
                     omega_v[a, b] = np.tensordot(va, np.tensordot(omega_ij, vb, ((1), (0))), ((0, 1), (0, 1)))
-            gamma_v = self.bias_solver(omega_v, bias_v)
+            gamma_v = self.bias_solver(omega_v, bias_v, -np.trace(omega_ij))  # rate scale: total escape rate
             # need to project gamma_v *back onto* our sites; not sure if we can just do with a dot since
             # self.VectorBasis is a list of Nx3 matrices
             gamma_i = sum(g * va for g, va in zip(gamma_v, self.VectorBasis))
